@@ -72,7 +72,12 @@ Min2(a, b) == IF a < b THEN a ELSE b
 Pairs(e) == CASE e.ev = "Register" -> <<<<e.sp, e.ret>>>>
               [] e.ev = "RegisterMany" -> [k \in 1..Len(e.sps) |-> <<e.sps[k], e.ret[k]>>]
               [] e.ev = "MapFields" -> [k \in 1..Len(e.items) |-> <<e.items[k].ty, e.ret[k].ty>>]
-NewSeen(e) == seen \cup {<<Ident(Pairs(e)[k][1]), Pairs(e)[k][2]>> : k \in 1..Len(Pairs(e))}
+\* register_types / map_into_portable answer with one id per argument, in order: a result of another length pairs with
+\* nothing, so no acceptor that speaks about returned ids can accept it (C01 speaks about the registry only)
+RetShapeOK(e) == CASE e.ev = "RegisterMany" -> Len(e.ret) = Len(e.sps)
+                   [] e.ev = "MapFields" -> Len(e.ret) = Len(e.items)
+                   [] OTHER -> TRUE
+NewSeen(e) == IF RetShapeOK(e) THEN seen \cup {<<Ident(Pairs(e)[k][1]), Pairs(e)[k][2]>> : k \in 1..Len(Pairs(e))} ELSE seen
 Partition(S) == \A p, q \in S : (p[1] = q[1]) <=> (p[2] = q[2])
 
 \* C02, relationally: from the <<identity, returned id>> pairs, each id resolves to an entry identical to
@@ -97,6 +102,7 @@ AcceptCall(e) ==
     [] Check = "C11" -> IsPrefix(prev, e.types)
     [] Check = "X02" -> TRUE
 TReturn == /\ Quiescent /\ ret # NoRet /\ HasPending
+           /\ (Check # "C01" => RetShapeOK(Rec[Pending]))
            /\ LET j == Pending IN
               /\ IF Check = "C05" THEN EvalsOK(j) ELSE j = l
               /\ AcceptCall(Rec[j])
